@@ -1,0 +1,20 @@
+//go:build verif
+
+package support
+
+// Contracts checked by /verif (vcgo). Comment-only: no executable code.
+// C05: the rename requests of a configuration are its lines of the form "old -> new", all of them, in order; other lines
+// (blank lines, comments) are skipped and end nothing.
+
+//@ spec IsRequest(line string) bool := len(Split(line, " -> ")) >= 2
+//@ spec rec Requests(lines []string, n int) int := n <= 0 ? 0 : Requests(lines, n - 1) + (IsRequest(lines[n - 1]) ? 1 : 0)
+
+//@ func parseRelated
+//@ ensures (result != nil) <==> IsRequest(str)
+//@ ensures result != nil ==> (*result).OldObj == Split(str, " -> ")[0] && (*result).NewObj == Split(str, " -> ")[1]
+
+//@ func ParseRelates
+//@ modifies relates
+//@ ensures len(result) == Requests(Split(str, "\n"), len(Split(str, "\n")))
+//@ loop 1 invariant len(relates) == Requests(Split(str, "\n"), #i)
+//@ loop 1 assert IsRequest(line) ==> relates[len(relates) - 1].OldObj == Split(line, " -> ")[0] && relates[len(relates) - 1].NewObj == Split(line, " -> ")[1]
